@@ -38,7 +38,7 @@ Definition cyc {A} (n : Z) (pat : list A) : list A := cyc_from (Z.to_nat n) pat 
 (* ---- tensor-level lincomb ---- *)
 Record caseL (T : Type) := mkL {
   l_fl : bool;                         (* is_floating_dtype(dtype) *)
-  l_bdt : bool;                        (* dtype in _BLAS_DTYPES *)
+  l_bdt : dtinfo;                      (* type code and byte order of the dtype *)
   l_flags : list (bool * bool);        (* (c_contiguous, f_contiguous) of x1, x2, out *)
   l_ids : nat * nat * nat;             (* identities of x1, x2, out among the buffers 0,1,2 *)
   l_size : Z;                          (* 0: the buffers are the whole arrays; n > 0: x1.size = n and the
@@ -71,7 +71,7 @@ Definition checkL_nan (tol : Q) := checkL (clO (clQ tol)) (fun z : option Q => z
 Definition checkL_cxnan (tol : Q) := checkL (clO (clC tol)) (fun z : option (Q * Q) => z).
 
 (* which regime the model selects (reported in the evidence by the harness) *)
-Definition regime_tag (fl bdt : bool) (size : Z) (flags : list (bool * bool)) : nat :=
+Definition regime_tag (fl : bool) (bdt : dtinfo) (size : Z) (flags : list (bool * bool)) : nat :=
   match regime_of size fl (blas_applicable true bdt size flags) with Direct => 0 | Fallback => 1 | Blas => 2 end%nat.
 
 (* ---- space-level arithmetic (nested product spaces, discretized spaces, operators) ---- *)
@@ -112,7 +112,7 @@ Arguments WNeg {T}. Arguments WPos {T}. Arguments WCopyLeaf {T}. Arguments WIPow
 
 Record caseW (T : Type) := mkW {
   w_sp : space;
-  w_bdt : list bool;                 (* per buffer id: dtype in _BLAS_DTYPES *)
+  w_bdt : list dtinfo;               (* per buffer id: type code and byte order of the dtype *)
   w_flags : list (bool * bool);      (* per buffer id: (c_contiguous, f_contiguous) *)
   w_op : wop T;
   w_bufs : list (list T);            (* initial contents, by id (temporaries: arbitrary, right length) *)
@@ -127,7 +127,7 @@ Arguments w_bufs {T}. Arguments w_cmp {T}. Arguments w_res {T}. Arguments w_err 
 Section RunW.
 Context {T : Type} `{Num T}.
 Variable flg : nat -> bool * bool.
-Variable bdtf : nat -> bool.
+Variable bdtf : nat -> dtinfo.
 Variable icast : T -> T.
 
 Definition run_b (inplace : bool) (k : bkind) (sp0 : space) (other : elem) (x t : elem) : store T -> outcome T :=
@@ -203,7 +203,7 @@ End RunW.
 Definition checkW {T} `{Num T} (cl : T -> T -> bool) (icast : T -> T) (k : caseW T) : bool :=
   let s0 := store_of (w_bufs k) in
   let flg := fun i => nth i (w_flags k) (false, false) in
-  let bdtf := fun i => nth i (w_bdt k) false in
+  let bdtf := fun i => nth i (w_bdt k) (mkdt 0 false) in
   match run_wop flg bdtf icast (w_sp k) (w_op k) s0, w_err k with
   | Ok s1, O => forallb (fun i => all2 cl (nth i (w_res k) []) (s1 i)) (w_cmp k)
   | CastErr, S O => true
